@@ -257,3 +257,52 @@ Example C02_dim_roundtrip_nonvacuous :
   keys_small [[97; 112; 112; 123; 125]; []; [255; 0]]%N /\
   dim_dec (dim_enc [[97; 112; 112; 123; 125]; []; [255; 0]]%N) = Some [[97; 112; 112; 123; 125]; []; [255; 0]]%N.
 Proof. exact dim_roundtrip_nonvacuous. Qed.
+
+(* ---- (added by builder tree-b) the dictionaries store and the real tree bytes ------------------------------------
+   Model/StorageCachedDict.v is a third twin of the storage: the trees cache holds BYTES on its disk, produced by the
+   real tree codec (Model/TreeCodec.v) against the application's dictionary, which lives in a second Model/Cache.v object
+   store (key = application name, dictionary codec of Model/Dict.v).  A tree save reads the dictionary through that
+   store (possibly reloading it from its own bytes) and PUTS the tree's names into it in place; a tree load reads the
+   dictionary the same way and decodes.  Maintenance: eviction of trees, eviction of dictionaries, Close+New = flush
+   trees THEN dictionaries, reopen — inserted anywhere.
+   C02_refines_dict_partial: whenever the run keeps its side conditions (the sticky flag [dok]: every saved tree is
+   well-formed, fits uvarints and has at most [cap] nodes, dictionaries stay below 2^55 bytes, dropped series keys
+   contain '{'), the outputs are LITERALLY those of cache's twin (C02_refines_partial) on the same history without the
+   dictionary steps, hence equivalent to the storage over plain maps.  The proof is a step simulation whose invariant
+   says: the bytes stored under a key decode, against the dictionary's current value AND against every extension of it,
+   to t_reload of the tree last saved there (Proofs/TreeCodecProofs.v serialize_stable, resting on C12's key stability
+   and the dictionary codec round trip); dictionaries only grow between a save and a load because nothing but saves
+   mutates them and their own evictions/reloads are exact.
+   PARTIAL — still outside: (a) the segments cache (plain association list, as in C02_refines_partial);
+   (b) dimensions (not in Model/Storage.v); (c) write-back and in-flight saves (both stores are driven synchronously:
+   Evict = hand-off + completion; the known findings D10/D11 live there); (d) trees above the node cap (the codec then
+   prunes: C04_prune; the flag goes down and the theorem says nothing); (e) a dictionary miss at load time ("label not
+   found" text) — excluded by the invariant, not modelled. *)
+From Pyro Require Import Model.StorageCachedDict Proofs.C02DictTwin.
+
+Theorem C02_refines_dict_partial : forall cap rt h,
+  dok (fst (d_run cap rt h dst_init)) = true ->
+  Forall ok_op (cstrip (dmap h)) ->
+  snd (d_run cap rt h dst_init) = snd (c_run rt (dmap h) cst_init) /\
+  Forall2 out_equiv (snd (d_run cap rt h dst_init)) (snd (st_run rt (cstrip (dmap h)) st_init)).
+Proof. exact refines_dict. Qed.
+Print Assumptions C02_refines_dict_partial.
+
+(* one key, spelled out: in any state related to cache's twin where the twin's disk holds t_reload v under k (i.e. v was
+   the tree last saved there) and the tree is not in memory, the load from bytes + dictionary returns t_reload v *)
+Theorem C02_load_after_save : forall (s : bstore) (c : tcache) k v,
+  brel s c -> Cache.c_disk c k = Some (t_reload v) -> l_find tkey_dec k (b_lfu s) = None ->
+  snd (b_read k s) = t_reload v.
+Proof. exact load_after_save. Qed.
+Print Assumptions C02_load_after_save.
+
+Example C02_refines_dict_nonvacuous :
+  let fin := fst (d_run 1024 None exd_hist dst_init) in
+  dok fin = true /\
+  (let s := g_store (fst (d_run 1024 None (firstn 5 exd_hist) dst_init)) in b_lfu s = [] /\ Cache.c_lfu (b_dicts s) = []) /\
+  (match Cache.c_disk (b_dicts (g_store fin)) [102;111;111]%N with
+   | Some bs => match d_deserialize bs with Some d => tr_weight d | None => 0%N end
+   | None => 0%N
+   end = 10%N) /\
+  snd (d_run 1024 None exd_hist dst_init) = snd (c_run None (dmap exd_hist) cst_init).
+Proof. exact refines_dict_nonvacuous. Qed.
